@@ -382,6 +382,38 @@ def run(ctx):
                           'model decode_streaming differs from the reference incremental decoder (model tie broken)', no_input=True)
             break
     ctx.stat('utf8_streaming_model_vs_reference_decoder', len(ones))
+    # whole-input decoder and encoder of Utf8.v against the reference codec: random strings, and byte strings near the valid ones
+    strs, blobs = [], []
+    for _ in range(1500 if ctx.tier == 'quick' else 30000):
+        t = ''.join(chr(rng.choice([rng.randrange(0, 0x80), rng.randrange(0x80, 0x800), rng.randrange(0x800, 0xD800), rng.randrange(0xE000, 0x10000),
+                                    rng.randrange(0x10000, 0x110000), 0x7F, 0x80, 0x7FF, 0x800, 0xFFFF, 0x10000, 0x10FFFF, 0xFEFF])) for _ in range(rng.randint(0, 5)))
+        strs.append(t)
+        b = bytearray(t.encode('utf-8'))
+        r = rng.random()
+        if b and r < 0.3:
+            b[rng.randrange(len(b))] = rng.choice([0x80, 0xBF, 0xC0, 0xC1, 0xE0, 0xED, 0xF0, 0xF4, 0xF5, 0xFF, 0x9F, 0xA0, 0x8F, 0x90, rng.randrange(256)])
+        elif b and r < 0.45:
+            del b[rng.randrange(len(b))]
+        elif r < 0.55:
+            b.insert(rng.randrange(len(b) + 1), rng.randrange(0x80, 0x100))
+        blobs.append(list(b))
+    m_enc = lib.run_model(222, [lib.enc(t) for t in strs])
+    m_whole = lib.run_model(221, [lib.enc(b) for b in blobs])
+    for t, m in zip(strs, m_enc):
+        if list(t.encode('utf-8')) != m:
+            ctx.violation({'kind': 'utf8_encode', 'text': t}, m, list(t.encode('utf-8')), 'Utf8.utf8_encode', 'model encoder differs from the reference codec (model tie broken)', no_input=True)
+            break
+    for b, m in zip(blobs, m_whole):
+        try:
+            ref = bytes(b).decode('utf-8')
+        except UnicodeDecodeError:
+            ref = None
+        mine = lib.dec_str(m[0]) if m else None
+        if mine != ref:
+            ctx.violation({'kind': 'utf8_whole', 'bytes': b}, mine, ref, 'Utf8.decode_whole', 'model decoder differs from the reference codec (model tie broken)', no_input=True)
+            break
+    ctx.stat('utf8_whole_and_encode_vs_reference_codec', len(strs) + len(blobs))
+    ctx.stat('utf8_invalid_blobs', sum(1 for m in m_whole if not m))
 
     # (4) large files
     big = big_file_cases(ctx)
